@@ -1,5 +1,9 @@
 """integer kernels of the C06 objects: the size expressions of the function objects (C06)"""
 _TS = [(r"tensor_size_t\s*[({]\s*(\d+)\s*[)}]", r"\1")]
+# powell.cpp (extension C06_Rest): x(i4 + k) read as the variable xk; the gradient combinations over gfx0..gfx3
+_PX = [(r"x\(i4 \+ (\d)\)", r"x\1")]
+_PA = [("x0", "Z"), ("x1", "Z"), ("x2", "Z"), ("x3", "Z")]
+_PG = [("gfx0", "Z"), ("gfx1", "Z"), ("gfx2", "Z"), ("gfx3", "Z")]
 KERNELS = [
     # function_rosenbrock_t: function_t("rosenbrock", std::max(dims, tensor_size_t(2)))
     K("src_c06_rosenbrock_size", "src/function/benchmark/rosenbrock.cpp",
@@ -40,4 +44,39 @@ KERNELS = [
       [("m_l1reg", "Z")], "c06", ["C06"]),
     K("src_c06_linear_l2_guard", "src/linear/function.cpp", r"W\.array\(\)\.abs\(\)\.mean\(\);\s*\}\s*if \((m_l2reg > 0\.0)\)", [(r"0\.0", "0")],
       [("m_l2reg", "Z")], "c06", ["C06"]),
+    # ---- extension (C06_Rest): own group `c06rest` (Src_c06rest.v) so that Src_c06.v (imported by C09 through C06_Defs) is untouched
+    # functional constraints forward the flags of the wrapped function
+    K("src_c06rest_functional_convex", "src/function/constraint.cpp",
+      r"bool convex\(const functional_t& constraint\)\s*\{\s*return\s+(.*?);", [(r"constraint\.m_function->convex\(\)", "fconvex")],
+      [("fconvex", "bool")], "c06rest", ["C06"]),
+    K("src_c06rest_functional_smooth", "src/function/constraint.cpp",
+      r"auto smooth\(const functional_t& constraint\)\s*\{\s*return\s+(.*?);", [(r"constraint\.m_function->smooth\(\)", "fsmooth")],
+      [("fsmooth", "bool")], "c06rest", ["C06"]),
+    K("src_c06rest_functional_sc", "src/function/constraint.cpp",
+      r"scalar_t strong_convexity\(const functional_t& constraint\)\s*\{\s*return\s+(.*?);", [(r"constraint\.m_function->strong_convexity\(\)", "fsc")],
+      [("fsc", "Z")], "c06rest", ["C06"]),
+    # gboost grads objective / surrogate fit objective: convex iff the loss is
+    K("src_c06rest_grads_convex", "src/gboost/function.cpp",
+      r"grads_function_t::grads_function_t\(.*?\bconvex\((.*?)\);", [(r"loss\.convex\(\)", "lconvex"), (r"convexity::yes", "true"), (r"convexity::no", "false")],
+      [("lconvex", "bool")], "c06rest", ["C06"]),
+    K("src_c06rest_fit_convex", "src/tuner/surrogate.cpp",
+      r"quadratic_surrogate_fit_t::quadratic_surrogate_fit_t\(.*?\bconvex\((.*?)\);", [(r"loss\.convex\(\)", "lconvex"), (r"convexity::yes", "true"), (r"convexity::no", "false")],
+      [("lconvex", "bool")], "c06rest", ["C06"]),
+    # maxquad.cpp, fill(A, k): index expressions of the matrix fill
+    K("src_c06rest_maxquad_si", "src/function/benchmark/maxquad.cpp", r"const auto si = static_cast<scalar_t>\((.*?)\);", [], [("i", "Z")], "c06rest", ["C06"]),
+    K("src_c06rest_maxquad_sk", "src/function/benchmark/maxquad.cpp", r"const auto sk = static_cast<scalar_t>\((.*?)\);", [], [("k", "Z")], "c06rest", ["C06"]),
+    K("src_c06rest_maxquad_sj", "src/function/benchmark/maxquad.cpp", r"const auto sj = static_cast<scalar_t>\((.*?)\);", [], [("j", "Z")], "c06rest", ["C06"]),
+    K("src_c06rest_maxquad_jstart", "src/function/benchmark/maxquad.cpp", r"for \(tensor_size_t j = (.*?); j < dims; \+\+j\)\s*\{\s*const auto sj", [], [("i", "Z")], "c06rest", ["C06"]),
+    K("src_c06rest_maxquad_offdiag", "src/function/benchmark/maxquad.cpp", r"if \((i != j)\)\s*\{\s*sum \+=", [], [("i", "Z"), ("j", "Z")], "c06rest", ["C06"]),
+    # powell.cpp: the four linear forms of a block (x(i4 + k) read as x0..x3 over Z) and the gradient combinations
+    K("src_c06rest_powell_l0", "src/function/benchmark/powell.cpp", r"fx \+= nano::square\(([^;]*?)\);", _PX, _PA, "c06rest", ["C06"], flags=0),
+    K("src_c06rest_powell_l1", "src/function/benchmark/powell.cpp", r"fx \+= nano::square\(([^;]*?)\) \* 5;", _PX, _PA, "c06rest", ["C06"], flags=0),
+    K("src_c06rest_powell_l2", "src/function/benchmark/powell.cpp", r"fx \+= nano::quartic\(([^;]*?)\);", _PX, _PA, "c06rest", ["C06"], flags=0),
+    K("src_c06rest_powell_l3", "src/function/benchmark/powell.cpp", r"fx \+= nano::quartic\(([^;]*?)\) \* 10;", _PX, _PA, "c06rest", ["C06"], flags=0),
+    K("src_c06rest_powell_g0", "src/function/benchmark/powell.cpp", r"gx\(i4 \+ 0\) = (.*?);", [], _PG, "c06rest", ["C06"]),
+    K("src_c06rest_powell_g1", "src/function/benchmark/powell.cpp", r"gx\(i4 \+ 1\) = (.*?);", [], _PG, "c06rest", ["C06"]),
+    K("src_c06rest_powell_g2", "src/function/benchmark/powell.cpp", r"gx\(i4 \+ 2\) = (.*?);", [], _PG, "c06rest", ["C06"]),
+    K("src_c06rest_powell_g3", "src/function/benchmark/powell.cpp", r"gx\(i4 \+ 3\) = (.*?);", [], _PG, "c06rest", ["C06"]),
+    # surrogate.cpp: the inner loops over the upper triangle start at j = i (fit features, gradient, value)
+    K("src_c06rest_surrogate_jstart", "src/tuner/surrogate.cpp", r"for \(tensor_size_t j = (\w+); j < size; \+\+j\)\s*\{\s*gx\(i\) \+=", [], [("i", "Z")], "c06rest", ["C06"]),
 ]
